@@ -6,7 +6,7 @@ ID = 'C01'
 PROPS_FILE = 'theories/Props/C01.v'
 PROPS_MODULE = 'Props.C01'
 COQ_TARGETS = ['theories/Extract/ExtractSyntax.vo']
-REQUIRED_THEOREMS = ['C01_no_panic', 'C01_no_panic_runtime', 'C01_parse_total', 'C01_parse_runtime_total', 'C01_fuel_linear']
+REQUIRED_THEOREMS = ['C01_no_panic', 'C01_no_panic_runtime', 'C01_parse_total', 'C01_parse_runtime_total', 'C01_fuel_linear', 'C01_byte_classes_from_source']
 MODEL = 'syn'
 HARNESS_BINS = ['syn_run']
 RELEASE_TOO = True
